@@ -98,8 +98,8 @@ End Hrefs.
 (* ---------- URL algebra at any depth ---------- *)
 Lemma url_shape t : filter_url_from_type t = s_up ++ ti_root_ns t ++ s_slash_hash ++ url_anchor t.
 Proof.
-  unfold filter_url_from_type, url_anchor. cbv zeta. cbn [concat app s_up s_slash_hash s_us].
-  rewrite ?app_nil_r, <- ?app_assoc. reflexivity.
+  unfold filter_url_from_type, url_anchor, filter_tag_id, anchor_tinfo. cbv zeta.
+  cbn [concat app s_up s_slash_hash ti_is_array ti_full_name ti_major ti_minor]. rewrite ?app_nil_r, <- ?app_assoc. reflexivity.
 Qed.
 
 Lemma split_on_length c s : forall cur, length (split_on c cur s) = S (length (filter (fun x => x =? c) s)).
